@@ -39,7 +39,9 @@ var c12Tokens = func() []string {
 	t = append(t,
 		// whole-line tokens: multi-line shapes (a parenthesis after ')' or after a body, a 3-byte keyword line after free text,
 		// a glued keyword after an annotated line) are reached at a small depth
-		"GET /p\n", "URL /u\n", "GET /p // note\n", "Request\n", "200\n", "TYPE @A\n", "Description\n", "  some text\n", ")\n", "(\n", "{}\n", "200any", "GETx", "PUT\n", "404\n")
+		"GET /p\n", "URL /u\n", "GET /p // note\n", "Request\n", "200\n", "TYPE @A\n", "Description\n", "  some text\n", ")\n", "(\n", "{}\n", "200any", "GETx", "PUT\n", "404\n",
+		// annotation ends written with more than one asterisk
+		"*", " /* a **/\n", " /** a */\n")
 	return t
 }()
 
